@@ -39,6 +39,15 @@ def run_cvc5(smt2, timeout_s):
         os.unlink(fn)
 
 
+def partition_for(pc, goal):
+    """components of pc + goal that are connected to the goal or not known satisfiable"""
+    from .core import partition, symbols_of
+    comps = partition(list(pc) + [goal])
+    gid = goal.get_id()
+    out = [c for c in comps if any(a.get_id() == gid for a in c)]
+    return out or comps
+
+
 class SymCtx:
     backend = 'sym'
 
@@ -110,6 +119,62 @@ class SymCtx:
         ts = self._ints(name, n, lo, hi)
         v = ops.mk_seq(kind, [SInt(t) for t in ts])
         return self._reg(name, 'ints:' + kind, ts, v)
+
+    def floats(self, name, n, kind='list', finite=False):
+        vs = []
+        ts = []
+        for i in range(n):
+            nm = '%s[%d]' % (name, i)
+            if self.I.float_mode == 'R':
+                t = z3.Real(nm)
+                vs.append(SReal(t))
+            else:
+                t = z3.FP(nm, F64)
+                if finite:
+                    self.path.assume(z3.Not(z3.Or(z3.fpIsNaN(t), z3.fpIsInf(t))))
+                vs.append(SFloat(t))
+            ts.append(t)
+        return self._reg(name, 'floats:' + kind, ts, ops.mk_seq(kind, vs))
+
+    def get(self, name):
+        return self.ns.get(name)
+
+    def uf_summary(self, ref, helper, ret_lo=None, ret_hi=None, note=''):
+        """Replace calls of repository function `ref` by an uninterpreted function of its
+        (flattened numeric) arguments with result range [ret_lo, ret_hi]; the same function is
+        available to specifications under the name `helper`.  The function's own contract is
+        proved (or stated as assumed) elsewhere."""
+        I = self.I
+
+        def flat(v, out):
+            if ops.is_number(v):
+                out.append(v)
+            elif ops.is_seq(v):
+                for x in ops.seq_items(v):
+                    flat(x, out)
+            else:
+                raise OutOfSubset('uf_summary argument %r' % (v,))
+
+        def app(args):
+            fl = []
+            for a in args:
+                flat(a, fl)
+            zs = []
+            for x in fl:
+                if ops.is_floatlike(x):
+                    zs.append(ops.to_real(I, x) if I.float_mode == 'R' else ops.to_fp(I, x))
+                else:
+                    zs.append(zterm(x))
+            f = z3.Function('uf_' + helper, *([z.sort() for z in zs] + [z3.IntSort()]))
+            r = f(*zs)
+            if ret_lo is not None:
+                self.path.assume(r >= ret_lo)
+            if ret_hi is not None:
+                self.path.assume(r <= ret_hi)
+            return mk_int(r)
+        self.I.summaries[ref] = {'apply': lambda I_, f, args, kwargs: app(args)}
+        self.ns[helper] = Builtin(helper, lambda I_, a, k: app(a))
+        self.I.note_assumption('call of %s replaced by its contract: uninterpreted function with result in [%s, %s] %s' % (ref, ret_lo, ret_hi, note))
 
     def str(self, name, n, lo=32, hi=126):
         ts = self._ints(name, n, lo, hi)
@@ -269,82 +334,97 @@ class SymCtx:
 
     # ------------------------------------------------------------------ obligations
     def _sink(self, cls, name, cond, info):
-        t0 = time.time()
         tv = self.I.truth(cond) if not isinstance(cond, (bool, SBool)) else cond
-        if tv is True:
-            self.sink.add(ObRecord(name, cls, 'discharged', 'syntactic', 0.0, path_id=self.path_id, expr=info.get('expr', info.get('inv', ''))))
-            return
-        neg = z3.BoolVal(True) if tv is False else z3.Not(tv.t)
-        tmo = self.cfg.get('ob_timeout_ms', 10000)
-        r = self.path.check(neg, timeout_ms=tmo)
-        backend = self.path.last_backend
-        fail_model, fail_lowered = self.path.last_model, self.path.last_lowered
-        if r == z3.unknown and self.cfg.get('use_cvc5', True):
-            s = z3.Solver()
-            s.add(*self.path.pc)
-            s.add(neg)
-            res = run_cvc5(s.to_smt2().replace('(check-sat)', ''), self.cfg.get('cvc5_timeout_s', 30))
-            if res == 'unsat':
-                r = z3.unsat
-                backend = 'cvc5'
-            # a cvc5 'sat' has no model we can lift: stays undecided unless z3 finds one
-        dt = time.time() - t0
         expr = info.get('expr', info.get('inv', ''))
-        if r == z3.unsat:
-            self.sink.add(ObRecord(name, cls, 'discharged', backend, dt, path_id=self.path_id, expr=expr))
-        elif r == z3.sat:
-            vals = self.model_values(fail_model, lowered=fail_lowered)
-            self.sink.add(ObRecord(name, cls, 'failed', backend, dt, values=vals, path_id=self.path_id, expr=expr))
-        else:
-            self.sink.add(ObRecord(name, cls, 'undecided', backend, dt, path_id=self.path_id, expr=expr,
-                                   detail=self.path.solver.reason_unknown()))
+        if tv is True:
+            self.sink.add(ObRecord(name, cls, 'discharged', 'syntactic', 0.0, path_id=self.path_id, expr=expr))
+            return
+        goal = z3.BoolVal(False) if tv is False else self.path.reduce(tv.t)
+        if z3.is_true(goal):
+            self.sink.add(ObRecord(name, cls, 'discharged', 'syntactic', 0.0, path_id=self.path_id, expr=expr))
+            return
+        # split conjunctions: each conjunct is its own solver query (one obligation record)
+        parts = []
+
+        def split(g, depth=0):
+            if z3.is_and(g) and depth < 4:
+                for ch in g.children():
+                    split(ch, depth + 1)
+            elif z3.is_not(g) and z3.is_or(g.arg(0)) and depth < 4:
+                for ch in g.arg(0).children():
+                    split(z3.simplify(z3.Not(ch)), depth + 1)
+            else:
+                parts.append(g)
+        split(goal)
+        t0 = time.time()
+        status, backend, detail, vals = 'discharged', 'syntactic', '', None
+        tmo = self.cfg.get('ob_timeout_ms', 10000)
+        for g in parts:
+            neg = z3.simplify(z3.Not(g))
+            r = self.path.check(neg, timeout_ms=tmo)
+            be = self.path.last_backend
+            fail_model = self.path.last_model
+            if r == z3.unknown and self.cfg.get('use_cvc5', True):
+                s = z3.Solver()
+                for comp in partition_for(self.path.pc, neg):
+                    s.add(*comp)
+                res = run_cvc5(s.to_smt2().replace('(check-sat)', ''), self.cfg.get('cvc5_timeout_s', 30))
+                if res == 'unsat':
+                    r = z3.unsat
+                    be = 'cvc5'
+                # a cvc5 'sat' has no model we can lift: stays undecided unless z3 finds one
+            if r == z3.unsat:
+                if backend == 'syntactic' or be != 'z3':
+                    backend = be
+                continue
+            if r == z3.sat:
+                status, backend = 'failed', be
+                vals = self.model_values(fail_model)
+                break
+            status, backend, detail = 'undecided', be, 'solver unknown on conjunct %s' % str(g)[:200]
+        dt = time.time() - t0
+        self.sink.add(ObRecord(name, cls, status, backend, dt, values=vals, path_id=self.path_id, expr=expr, detail=detail))
 
     def witness(self):
         """A concrete input driving the real code down this path (for the concordance run)."""
         r = self.path.check()
         if r != z3.sat:
             return None
-        return self.model_values(self.path.last_model, lowered=self.path.last_lowered)
+        return self.model_values(self.path.last_model)
 
-    def model_values(self, m, lowered=False):
+    def model_values(self, m):
         out = {}
 
         def ev_int(t):
-            if lowered:
-                w = [d for d in m.decls() if d.name() == 'bv!' + t.decl().name()] if z3.is_const(t) else []
-                if not w:
-                    return 0
-                bvv = m[w[0]]
-                return bvv.as_signed_long()
             v = m.eval(t, model_completion=True)
             try:
                 return v.as_long()
             except Exception:
                 return 0
 
+        def ev_float(p):
+            v = m.eval(p, model_completion=True)
+            if z3.is_real(p):
+                try:
+                    return {'real': float(v.as_fraction())}
+                except Exception:
+                    return {'real': float(v.approx(20).as_fraction())}
+            if z3.is_true(z3.simplify(z3.fpIsNaN(v))):
+                return {'f64bits': 0x7ff8000000000000}
+            bv = z3.simplify(z3.fpToIEEEBV(v))
+            return {'f64bits': bv.as_long() if z3.is_bv_value(bv) else 0}
+
         for name, kind, p in self.inputs:
             if kind == 'int':
                 out[name] = ev_int(p)
             elif kind == 'bool':
                 out[name] = z3.is_true(m.eval(p, model_completion=True))
-            elif kind == 'float':
-                v = m.eval(p, model_completion=True)
-                bv = z3.simplify(z3.fpToIEEEBV(v))
-                if z3.is_bv_value(bv):
-                    bits = bv.as_long()
-                else:
-                    bits = 0x7ff8000000000000
-                if z3.is_true(z3.simplify(z3.fpIsNaN(v))):
-                    bits = 0x7ff8000000000000
-                out[name] = {'f64bits': bits}
-            elif kind == 'real':
-                v = m.eval(p, model_completion=True)
-                try:
-                    out[name] = {'real': float(v.as_fraction())}
-                except Exception:
-                    out[name] = {'real': float(v.approx(20).as_fraction())}
+            elif kind in ('float', 'real'):
+                out[name] = ev_float(p)
             elif kind in ('bytes', 'bytearray', 'str') or kind.startswith('ints:'):
                 out[name] = [ev_int(t) for t in p]
+            elif kind.startswith('floats:'):
+                out[name] = [ev_float(t) for t in p]
             elif kind.startswith('seq:'):
                 v = m.eval(p, model_completion=True)
                 ln = m.eval(z3.Length(p), model_completion=True).as_long()
@@ -403,6 +483,37 @@ class SymCtx:
             if isinstance(x, SReal):
                 return x
             return ops.mk_float(z3.fpFPToFP(RNE, z3.fpFPToFP(RNE, ops.to_fp(I, x), F32), F64))
+
+        @helper('fits_f32')
+        def _fits_f32(I_, a, k):
+            x = a[0]
+            if isinstance(x, (int, float)) and not is_sym(x):
+                try:
+                    _struct.pack('<f', x)
+                    return True
+                except OverflowError:
+                    return False
+            if isinstance(x, SReal):
+                return True
+            t = ops.to_fp(I, x)
+            y = z3.fpFPToFP(RNE, t, F32)
+            return mk_bool(z3.Not(z3.And(z3.Not(z3.fpIsInf(t)), z3.Not(z3.fpIsNaN(t)), z3.fpIsInf(y))))
+
+        @helper('mm')
+        def _mm(I_, a, k):
+            return M._int(I, [binop(I, '*', a[0], 1000)], {})
+
+        @helper('fits_mm16')
+        def _fits_mm16(I_, a, k):
+            x = binop(I, '*', a[0], 1000)
+            if isinstance(x, float):
+                return x == x and abs(x) != float('inf') and -32768 <= int(x) <= 32767
+            if isinstance(x, SReal):
+                raise OutOfSubset('fits_mm16 in R mode')
+            t = ops.to_fp(I, x)
+            fin = z3.Not(z3.Or(z3.fpIsNaN(t), z3.fpIsInf(t)))
+            v = zterm(M.float_trunc_term(I, t))
+            return mk_bool(z3.And(fin, v >= -32768, v <= 32767))
 
         @helper('pack')
         def _pack(I_, a, k):
